@@ -13,7 +13,7 @@ CLAIMED = {
  "C19": ("proof", "E2", "one contract per exported geometry helper, postconditions = the defining equations of the property statement, discharged over the reals for all arguments",
          "A-REAL; Sphere::from_four_points: definedness of its sqrt attempted only",
          TECH + " — E2 VC generation from the real helper bodies + SMT / ring"),
- "C04": ("proof", "E2", "normals: unit, pointing away from the left generator (from the property statement), face centroid stays in the face plane (inductive invariant over collect/finalize), sign conventions of signed area/volume, walls of the box",
+ "C04": ("proof", "E2", "normals: unit, pointing away from the left generator (from the property statement; on the closed half-space, i.e. also for a generator exactly on a wall), face centroid stays in the face plane (inductive invariant over collect/finalize), sign conventions of signed area/volume, walls of the box",
          "A-REAL; closure/divergence identities not claimed (need C01)",
          TECH + " — E2 contracts on build's bisector slice, cuboid, VoronoiFaceIntegral::{init,collect,finalize}, FaceIntegrator::init"),
  "C03": ("proof", "E2", "storage/label half: every unshifted face between two constructed cells is emitted by exactly one side (the lower index), shifted faces by each side, boundary faces always; labels left/right/shift passed through unchanged; the periodic iterator reports None iff the query shift is zero, else the negated shift",
@@ -22,25 +22,25 @@ CLAIMED = {
  "C07": ("proof", "E2", "face bookkeeping under every mask: count(i,j) is 1 iff some side is selected, the selected side is the left cell, a cell is constructed iff no mask or its bit is set (both routes); bitwise equality with the full build argued by a syntactic frame obligation",
          "2-safety part (bitwise same volume/centroid) is a frame argument, not a proved obligation",
          TECH + " — E2 contracts on should_construct_face and the construct-or-default condition + SMT"),
- "C13": ("proof", "E2", "symmetric-variant sentence: the plane is skipped iff it has an unshifted, lower-index, active right neighbour; the two function bodies are token-identical apart from that statement; kept_sym(plane) == should_construct_face(plane) for an active cell",
+ "C13": ("proof", "E2", "symmetric-variant sentence: the plane is skipped iff it has an unshifted, lower-index, active right neighbour; the two function bodies are token-identical apart from that statement; kept_sym(plane) == should_construct_face(plane) for an active cell; both routes hand the same normalised box to the cells",
          "route equality (integrator vs direct, bitwise) and 'built-in integrals reproduce stored values' are not claimed",
          TECH + " — E2 contract on the sliced match arm + structural comparison"),
- "C18": ("proof", "E1", "cycle algebra of the boundary reconstruction: try_extend equals a functional spec (Err leaves the state untouched, result invariant under rotating the triple), init resets and installs the triangle, every step keeps a single cycle; compute_boundary permutes the removed vertices and ends with chain(edges) = sum of triangle boundaries; theorem: outcomes for re-ordered / rotated inputs are the same cycle. Unbounded (loop invariants, recursive lemmas)",
-         "never-stuck (the greedy search always finds an attachable triangle) is NOT decided; which vertices are removed and 'same volume' are float code outside E1; SimpleCycle::new assumed (external_body)",
+ "C18": ("proof", "E1", "cycle algebra of the boundary reconstruction: try_extend equals a functional spec (Err leaves the state untouched, result invariant under rotating the triple), init resets and installs the triangle, every step keeps a single cycle; compute_boundary permutes the removed vertices and ends with chain(edges) = sum of triangle boundaries; theorem: outcomes for re-ordered / rotated inputs are the same cycle; the rebuild block of clip_by_plane (statement slice): new plane appended, kept vertices untouched, exactly one new vertex (edge planes + new plane) per edge of the boundary cycle, cell invariant re-established. Unbounded (loop invariants, recursive lemmas)",
+         "never-stuck (the greedy search always finds an attachable triangle) is NOT decided; which vertices are removed and 'same volume' are float code outside E1; SimpleCycle::new, Vertex::from_dual, update_safety_radius and the sub-slice call of compute_boundary are external in Verus (assumed / proved elsewhere); two bounded stand-ins on the real code are reported separately",
          TECH + " — Verus on functions sliced verbatim from /repo/src with spliced contracts, loop invariants and lemmas"),
  "C08": ("proof", "E2+E3", "projection mechanisms: Generator::new keeps id and active coordinates bit for bit and zeroes unused ones for every bit pattern (kani::ensures on the real fn + 2-safety form); vector_is_valid iff unused components exactly zero (kani::ensures, all bit patterns); the anchor/width normalisation prefix of both build routes; Vertex::from_dual's radius in the active subspace; cuboid triples exactly the active axes",
          "A-REAL for the E2 part; E3 cuboid over a stated input window; closed-form 1D / 2D-equals-3D-slab statements not decided (composed float algorithm)",
          TECH + " — Kani function contracts (proof_for_contract) on the real crate + E2 contracts on from_dual, cuboid and the normalisation slices"),
- "C06": ("proof", "E2+E3", "the mechanisms that make periodic faces carry lattice shifts, function by function: the iterator pushes exactly the 3^d shifts (i,j,k)*width on active axes, each once (all widths, all dimensionalities); the map closure reports None iff the query shift is zero, else the negated shift; neighbour = generator + shift; labels passed through to the face; cuboid triples the initial cell along exactly the active axes",
+ "C06": ("proof", "E2+E3", "the mechanisms that make periodic faces carry lattice shifts, function by function: the iterator pushes exactly the 3^d shifts (i,j,k)*width on active axes, each once (all widths, all dimensionalities); the map closure reports None iff the query shift is zero, else the negated shift; neighbour = generator + shift; labels passed through to the face; every candidate the iterator hands over (own periodic images included) ends the loop or is clipped; cuboid triples the initial cell along exactly the active axes",
          "A-REAL; E3 cuboid window; equivalence with the 3^d-replicated tessellation, absence of boundary faces and translation invariance not decided (composed float algorithm)",
          TECH + " — E2 contracts on slices of rtree_nn.rs / convex_cell.rs / half_space.rs + Kani harness on cuboid with HalfSpace::new replaced by its verified contract"),
- "C05": ("proof", "E2+E3", "the exact-arithmetic boundary: grid domain for every queryable position incl. generators exactly on walls (reals: all boxes; bits: windows); HalfSpace::{new,clip} under kani::requires/ensures on the real functions (error bound finite positive, answer in {-1,0,+1}, 0 iff within the bound, never NaN) with glam's dot under its own proved contract; wiring of the exact path in clip_by_plane; right_loc of a wall is the mirror image",
+ "C05": ("proof", "E2+E3", "the exact-arithmetic boundary: grid domain for every queryable position incl. generators exactly on walls (reals: all boxes; bits: windows); HalfSpace::{new,clip} under kani::requires/ensures on the real functions (error bound finite positive, answer in {-1,0,+1}, 0 iff within the bound, never NaN) with glam's dot under its own proved contract; over the reals: d = n.p, clip = 0 iff |n.v - d| < errb else the sign, and errb dominates the worst-case rounding error of the offset d; wiring of the exact path in clip_by_plane; right_loc of a wall is the mirror image",
          "A-REAL, A-ROUND, input windows; absence of the three panic sites, termination of build and adequacy of errb as a rounding bound are NOT decided",
          TECH + " — Kani function contracts (proof_for_contract, stub of glam dot by its proved contract) + E2 contracts on iloc / right_loc / the vertex-loop slice"),
- "C16": ("proof", "E2+E3", "the three mechanisms: radius2 of every vertex is the squared distance to the generator in the active subspace (Vertex::from_dual, all inputs); the neighbour loop returns exactly when safety_radius < distance and clips otherwise; safety_radius is written only by update_safety_radius, which runs after every rebuild of the vertex set; update_safety_radius = 2*sqrt(max radius2) (bounded Kani stand-in)",
-         "A-REAL, A-SQRT; update_safety_radius is bounded (3/4 vertices) and never counted as proved; the security-radius theorem itself (farther generators cannot change the cell) is mathematics about convex polytopes and NOT decided",
-         TECH + " — E2 contracts on Vertex::from_dual and the neighbour-loop slice + syntactic frame obligations; bounded Kani harness on update_safety_radius"),
- "C15": ("proof", "E1+E3", "ordering / index contracts: Vertex::plane_idx (first position or None, terminates; Verus and Kani over all inputs); sort_face_vertices only permutes the index list, keeps the first corner, orders consecutive corners along shared planes, terminates (Verus, loop invariants, verbatim slice); with_faces panics for 1D/2D and not for 3D (Kani on the real fn); face data is Some wherever the unchecked accessors are reachable (syntactic type-state obligations)",
+ "C16": ("proof", "E2+E3", "the three mechanisms: radius2 of every vertex is the squared distance to the generator in the active subspace (Vertex::from_dual, all inputs); the neighbour loop returns exactly when safety_radius < distance and clips otherwise; ConvexCell::init as a whole (update_safety_radius inlined, its iterator chain unrolled by std's fold semantics): the initial radius is at least twice every vertex distance, all inputs; for an arbitrary vertex count update_safety_radius = 2*sqrt(max radius2) is a bounded Kani stand-in",
+         "A-REAL, A-SQRT; update_safety_radius for arbitrary vertex counts is bounded (3/4 vertices) and never counted as proved; the update sites are syntactic facts (never an alarm on their own; the rebuild block of clip_by_plane is under C18's Verus contract); the security-radius theorem itself (farther generators cannot change the cell) is mathematics about convex polytopes and NOT decided",
+         TECH + " — E2 contracts on Vertex::from_dual, ConvexCell::init (whole function) and the neighbour-loop slice + syntactic frame obligations; bounded Kani harness on update_safety_radius"),
+ "C15": ("proof", "E1+E3", "ordering / index contracts: Vertex::plane_idx (first position or None, terminates; Verus and Kani over all inputs); sort_face_vertices only permutes the index list, keeps the first corner, orders consecutive corners along shared planes, terminates (Verus, loop invariants, verbatim slice); with_faces panics for 1D/2D and not for 3D (Kani on the real fn); neighbour(f) / shift(f) agree with the labels of the face integral of the same plane (E2); face data is Some wherever the unchecked accessors are reachable (syntactic type-state obligations)",
          "sort_face_vertices may panic (postcondition on return); polytope validity (vertex = plane intersection, planarity, convexity, Euler, area) NOT decided; unsafe blocks unverified",
          TECH + " — Verus on verbatim slices with spliced contracts and loop invariants; Kani harnesses on the real crate; syntactic type-state checks"),
  "C12": ("proof", "E1+E2", "Voronoi::finalize verified by Verus for any number of cells and faces (loop invariants; real text, de-sugared by stated mechanical rules): per-cell lists in face order, offsets = prefix sums, array = concatenation in cell order, every cell records its own index; theorem from the contract alone: the slice [offset, offset+count) lists face i iff the cell is its left or unshifted right cell; neighbour closure yields exactly the other side of listed non-boundary non-periodic faces, never the cell itself (E2, all labels)",
